@@ -166,6 +166,63 @@ impl ServerStats {
     }
 }
 
+/// Handles to a server's shared components (verification hooks only)
+#[cfg(feature = "verif-hooks")]
+pub struct VerifHandles {
+    pub storage: Arc<StorageEngine>,
+    pub blocking: Arc<BlockingManager>,
+    pub pubsub: Arc<PubSubManager>,
+    pub rdb: Option<Arc<RdbEngine>>,
+    pub replication: Arc<ReplicationManager>,
+    pub monitors: Arc<MonitorSubscribers>,
+    pub connections: Arc<dyn Fn() -> Vec<crate::verif_hooks::ConnStateRow> + Send + Sync>,
+    pub addr: std::net::SocketAddr,
+}
+
+#[cfg(feature = "verif-hooks")]
+impl Server {
+    /// Read-only handles for an external checker
+    pub fn verif_handles(&self) -> VerifHandles {
+        let conns = Arc::clone(&self.connections);
+        VerifHandles {
+            storage: Arc::clone(&self.storage),
+            blocking: Arc::clone(&self.blocking_manager),
+            pubsub: Arc::clone(&self.pubsub),
+            rdb: self.rdb_engine.clone(),
+            replication: Arc::clone(&self.replication),
+            monitors: Arc::clone(&self.monitor_subscribers),
+            connections: Arc::new(move || {
+                let mut rows = Vec::new();
+                for id in conns.all_connection_ids() {
+                    if let Some(row) = conns.with_connection(id, |conn| {
+                        let (state, blocked_keys) = match &conn.state {
+                            ConnectionState::Connected => ("connected", Vec::new()),
+                            ConnectionState::Authenticated => ("authenticated", Vec::new()),
+                            ConnectionState::Blocked(b) => ("blocked", b.keys.clone()),
+                            ConnectionState::Closing => ("closing", Vec::new()),
+                        };
+                        crate::verif_hooks::ConnStateRow {
+                            id,
+                            state,
+                            db: conn.db_index,
+                            in_multi: conn.transaction_state.in_transaction,
+                            queued: conn.transaction_state.queued_commands.len(),
+                            watched: conn.transaction_state.watched_keys.len(),
+                            blocked_keys,
+                            is_monitoring: conn.is_monitoring,
+                        }
+                    }) {
+                        rows.push(row);
+                    }
+                }
+                rows.sort_by_key(|r| r.id);
+                rows
+            }),
+            addr: self.listener.local_addr().expect("listener address"),
+        }
+    }
+}
+
 /// Main server struct
 pub struct Server {
     listener: Listener,
@@ -371,6 +428,9 @@ impl Server {
         let mut cycles_without_work = 0;
         
         loop {
+            #[cfg(feature = "verif-hooks")]
+            if crate::verif_hooks::point(crate::verif_hooks::LOOP_TOP, 0) == 1 { return Ok(()); }
+            
             let mut did_work = false;
             
             // Process wake-up queue first (very fast, lock-free)
